@@ -542,7 +542,8 @@ def run(ck):
         reqs_dc.append((inp, "export " + toks, "ok:" + data.hex(), "model export differs"))
         reqs_dc.append((inp, "tbs " + toks, canon(tr), "model data-to-sign differs"))
         reqs_dc.append((inp, "tbs " + dc_tokens(dc, b""), canon(tr), "model data-to-sign depends on the signature"))
-        reqs_dc.append((inp, f"parse {cls} " + data.hex(), "ok:" + toks, "model class parse differs"))
+        pc = pyres(type(dc).parse, data)
+        reqs_dc.append((inp, f"parse {cls} " + data.hex(), ("ok:" + dc_tokens(pc[1])) if pc[0] == "ok" else pc[0], "model class parse differs"))
         pa = pyres(DC.parse, data)
         reqs_dc.append((inp, "parse auto " + data.hex(), ("ok:" + dc_tokens(pa[1])) if pa[0] == "ok" else pa[0], "model dispatching parse differs"))
         reqs_dc.append((inp, "hash " + toks, canon(hr), "model calculate_hash differs"))
